@@ -461,7 +461,15 @@ func runSolver(ctx context.Context, idx int, query string, timeout time.Duration
 	cmd.Run()
 	el := time.Since(t0).Seconds()
 	o := out.String()
-	first := strings.TrimSpace(strings.SplitN(o, "\n", 2)[0])
+	first := ""
+	for _, l := range strings.Split(o, "\n") {
+		l = strings.TrimSpace(l)
+		if l == "" || strings.HasPrefix(l, "WARNING") {
+			continue // e.g. z3's "'not' cannot be used in patterns"
+		}
+		first = l
+		break
+	}
 	r := SolveResult{Solver: cmdv[0], Time: el, Output: o}
 	switch first {
 	case "unsat", "sat", "unknown":
